@@ -453,10 +453,10 @@ class ParallelPipelineRunner(PipelineRunner):
             # The other end does not send an actual traceback object because these are
             # not picklable, but a string representation.
             logger.debug("%s", tb_str)
-            if _verif.ON:
-                _verif.event("M", "m_exc")
             for child in multiprocessing.active_children():
                 child.terminate()
+            if _verif.ON:
+                _verif.event("M", "m_exc")
             raise e
         return result
 
